@@ -122,6 +122,13 @@ def make_scratch(mounts, atomics_files=(), extra_subs=(), tmp_root=None):
                 else "crate::verif_env::thread_current()"
             n = _sub(p, "std::thread::current()", repl, min_count=1)
             applied.append(f"E2 {rel} x{n}")
+        # E9 crossbeam AtomicCell (raw-pointer holder only) -> plain UnsafeCell wrapper
+        for rel, pat, repl, cnt in (
+                ("common/macros.rs", "crossbeam_utils::atomic::AtomicCell", "$crate::verif_env::VCell", 2),
+                ("coroutine/suspender.rs", "crossbeam_utils::atomic::AtomicCell", "crate::verif_env::VCell", 4),
+                ("net/selector/mio_adapter.rs", "use crossbeam_utils::atomic::AtomicCell;", "use crate::verif_env::VCell as AtomicCell;", 1)):
+            n = _sub(os.path.join(src, rel), pat, repl, expect=cnt)
+            applied.append(f"E9 {rel} x{n}")
         # E4 catch_unwind
         n = _sub(os.path.join(src, "common/macros.rs"), "std::panic::catch_unwind(",
                  "$crate::verif_env::catch_unwind(", expect=1)
